@@ -168,6 +168,39 @@ int main(void)
 			printf("%d %d %llu %zu %zu %zu %zu\n", (int)r1, (int)r2, (unsigned long long)est2, live_at_reinit, peak2, live_bytes, bad_free); fflush(stdout);
 			continue;
 		}
+		if (!strncmp(line, "reopt ", 6)) {
+			// reopt <kind> <presetA> <dictA> <presetB> <dictB> <hex>: an encoder initialised with options A, used for a while,
+			// re-initialised on the same handle with options B (dict 0 = the preset's own); what is live during the second use
+			// must be covered by the memory-usage function for B.  kind 0 easy, 1 stream_encoder_mt (2 threads), 2 raw LZMA2, 3 alone
+			unsigned kd, pa, pb; unsigned long long da, db; int o2 = 0;
+			if (sscanf(line, "reopt %u %u %llu %u %llu %n", &kd, &pa, &da, &pb, &db, &o2) < 5) { printf("ERR\n"); fflush(stdout); continue; }
+			size_t n = 0; for (char *h = line + o2; h[0] && h[1] && h[0] != '\n'; h += 2) in[n++] = (uint8_t)(hexv(h[0]) << 4 | hexv(h[1]));
+			nlive = 0; live_bytes = peak_bytes = n_allocs = bad_free = 0; fail_k = 0; alarm(120);
+			lzma_stream s = LZMA_STREAM_INIT; s.allocator = &al; static uint8_t ob2[1 << 22];
+			lzma_ret rr[2] = { LZMA_OK, LZMA_OK }; uint64_t est2 = 0; size_t live_at_reinit = 0, peak2 = 0;
+			for (int ph = 0; ph < 2; ph++) {
+				lzma_options_lzma o; lzma_lzma_preset(&o, ph ? pb : pa); if (ph ? db : da) o.dict_size = (uint32_t)(ph ? db : da);
+				lzma_filter f[2] = { { kd == 3 ? LZMA_FILTER_LZMA1 : LZMA_FILTER_LZMA2, &o }, { LZMA_VLI_UNKNOWN, NULL } };
+				lzma_mt m = { .threads = 2, .filters = f, .check = LZMA_CHECK_CRC32, .block_size = 1 << 16 };
+				lzma_ret r;
+				switch (kd) {
+				case 0: r = lzma_stream_encoder(&s, f, LZMA_CHECK_CRC32); if (ph) est2 = lzma_raw_encoder_memusage(f); break;
+				case 1: r = lzma_stream_encoder_mt(&s, &m); if (ph) est2 = lzma_stream_encoder_mt_memusage(&m); break;
+				case 2: r = lzma_raw_encoder(&s, f); if (ph) est2 = lzma_raw_encoder_memusage(f); break;
+				default: r = lzma_alone_encoder(&s, &o); if (ph) est2 = lzma_raw_encoder_memusage(f); break;
+				}
+				if (ph) { pthread_mutex_lock(&mu); live_at_reinit = live_bytes; peak_bytes = live_bytes; pthread_mutex_unlock(&mu); }
+				if (r == LZMA_OK) {
+					s.next_in = in; s.avail_in = ph ? n : n / 2;
+					do { s.next_out = ob2; s.avail_out = sizeof ob2; r = lzma_code(&s, ph ? LZMA_FINISH : LZMA_RUN); } while (r == LZMA_OK && (ph || s.avail_in));
+				}
+				rr[ph] = r;
+			}
+			peak2 = peak_bytes;
+			lzma_end(&s); alarm(0);
+			printf("%d %d %llu %zu %zu %zu %zu\n", (int)rr[0], (int)rr[1], (unsigned long long)est2, live_at_reinit, peak2, live_bytes, bad_free); fflush(stdout);
+			continue;
+		}
 		// memc = mem with the input offered 7 bytes at a time (lzma_memusage() is sampled after every call that returns LZMA_OK)
 		in_chunk = 0; if (!strncmp(line, "memc ", 5)) { in_chunk = (line[5] == '6') ? 0 : 7; memmove(line + 3, line + 4, strlen(line + 4) + 1); }
 		if (sscanf(line, "mem %u %llu %llu %u %n", &sc, &failk, &memlimit, &arg, &off) < 4) { printf("ERR\n"); fflush(stdout); continue; }
